@@ -1,7 +1,9 @@
 """C07 - containers and stores are bounded, conservative, ordered, never strand a request."""
 import re
 from harness import kprops, kbridge
-from harness.kbridge import EXTRA_MODULES, TRUSTED_EXTRA, prepare
+from harness.kbridge import TRUSTED_EXTRA
+EXTRA_MODULES = kbridge.MODULES['C07']      # this property's bridge modules only (py2lean/SCOPE.md)
+prepare = kbridge.prepare_for('C07')    # regenerates only the generated files this property owns
 from vlib.util import unbits
 ASSUMPTIONS = ['integer amounts and items in the cases replayed by the model; PriorityStore items are plain integers (ties are indistinguishable)',
                'containers with float (binary fractions, exact in IEEE double) and Fraction amounts are judged by the direct oracle only (harness/kamount.py)',
@@ -108,7 +110,7 @@ def run(ctx):
             fails, st = kamount.run_probe(j['case'])
             return {'coverage': {'evaluations': 1, 'distinct_nontrivial': 1, 'rule': 'replayed fractional-amount container probe', 'samples': [j['case']],
                                  'fractional_amount_probes': st}, 'disagreements': [], 'oracle_failures': fails}
-    res = kprops.run_kernel(ctx, 'C07', SPEC, 1500, 40000, oracles=[oracle_bounds, oracle_heads, oracle_handout, oracle_conservation, oracle_fcfs],
+    res = kprops.run_kernel(ctx, 'C07', SPEC, 1500, 40000, attribute=kprops.stop_is_not_the_cause, oracles=[oracle_bounds, oracle_heads, oracle_handout, oracle_conservation, oracle_fcfs],
                              nontrivial=lambda c, lines: any(('pq' in l and not re.search(r'pq0 gq0', l)) for l in lines if l.startswith('S ')),
                              rule='seeded put/get/cancel histories of 2-8 processes on containers and the three stores; non-trivial = distinct history in which some request had to queue')
     res['coverage'].update(kbridge.coverage('C07'))
